@@ -30,7 +30,9 @@ BOUNDS = {
     "thorough": [("p2u4d4", 2, 4, 4, 0, 1, 2), ("p3u4d3-allord", 3, 4, 3, 0, 1, 5), ("p3u5d3", 3, 5, 3, 0, 0, 8),
                  ("p2u4d3-id", 2, 4, 3, 1, 1, 1), ("p1u5d4-id", 1, 5, 4, 1, 1, 1)],
 }
-SIMS = {"quick": [], "thorough": [("sim-p3u5d8", 3, 5, 8, 0, 0, 2, 2500), ("sim-p2u4d8-id", 2, 4, 8, 1, 0, 1, 1200)]}
+# simulation: TLC checks (and Emit prints) EVERY successor of every state of each random trace, so a
+# handful of traces yields thousands of deep histories (num is per worker)
+SIMS = {"quick": [], "thorough": [("sim-p3u5d8", 3, 5, 8, 0, 0, 2, 10), ("sim-p2u4d8-id", 2, 4, 8, 1, 0, 1, 40)]}
 GN_RUNS = [("Rename_gn.cfg", 2, 4, 3), ("C06_gn_resolve.cfg", 2, 4, 2), ("C06_gn_outputs.cfg", 2, 4, 3)]
 
 
@@ -151,6 +153,8 @@ def cases_for(P, k, thorough):
     for order in ("asc", "desc"):
         if order == "desc" and not any(len(b) > 1 for b in rec["ops"] + orec["ops"]):
             continue
+        if order == "desc" and not thorough and k % 2:
+            continue                 # quick: the second dict order on every other history
         rev = (lambda b: b[::-1]) if order == "desc" else (lambda b: b)
         ins = [["inputs", rev(b)] for b in rec["ops"]]
         outs = [["outputs", rev(b)] for b in orec["ops"]]
@@ -183,7 +187,7 @@ def cases_for(P, k, thorough):
             yield case("func", prof, P, _interleave(k, [ins, outs, names]), sync_runs(prof) if full else sync_runs(prof, extra=False)[:2])
         if full:
             # other placements of the defaults: attributes only
-            for prof in (pl if rich else [pl[(k * 3 + j) % len(pl)] for j in range(1, 4)]):
+            for prof in (pl if rich else [pl[(k * 3 + j) % len(pl)] for j in range(1, 3)]):
                 if prof not in chosen:
                     yield case("func", prof, P, _interleave(k, [ins, outs, names]), [])
         # gates: inputs only
@@ -198,6 +202,8 @@ def cases_for(P, k, thorough):
         if full:
             prof = pl[(k + 3) % len(pl)]
             runs = [{"omit": o, "mode": "async"} for o in _omits(prof, cap=2)[-1:]] + [{"omit": [], "mode": "pause"}]
+            if not rich:
+                runs = runs[k % 2: k % 2 + 1]        # auto-resolve and pause/resume alternate
             yield case("interrupt", prof, 1, _interleave(k, [ins, iouts, names]), runs)
         # constructor rename_inputs= carries the first batch
         if full and rec["ops"] and (k % 2 == 0 or rich):
@@ -213,11 +219,13 @@ def cases_for(P, k, thorough):
         chosen = [gl[(k * 5 + j * 7 + 1) % len(gl)] for j in range(2 if (rich and full) else 1)]
         for j, prof in enumerate(chosen):
             runs = sync_runs(prof) if full else sync_runs(prof, extra=False)[:3]
+            if not rich and full:
+                runs = [r for r in runs if len(r["omit"]) != 1 or len(_omits(prof)) <= 2 or "bind" in r]
             if j == 0 and full:
                 runs.append({"omit": _omits(prof)[-1] if len(_omits(prof)) > 1 else [], "mode": "async"})
             yield case("graph", prof, P, _interleave(k + j, [ins, outs, names]), runs)
         if full:
-            others = gl if (rich and len(gl) <= 16) else [gl[(k * 7 + j * 5) % len(gl)] for j in range(3)]
+            others = gl if (rich and len(gl) <= 16) else [gl[(k * 7 + j * 5) % len(gl)] for j in range(2)]
             for prof in others:
                 if prof not in chosen:
                     yield case("graph", prof, P, _interleave(k, [ins, outs, names]), [])
@@ -236,14 +244,14 @@ def cases_for(P, k, thorough):
                 steps = _interleave(k, [ins[:split], outs[: len(outs) // 2]]) + [mstep] + _interleave(k, [ins[split:], outs[len(outs) // 2:], names])
                 omit = [i for i, c in enumerate(prof) if c != "r" and i != pos]
                 runs = [{"omit": [], "mode": "sync"}]
-                if omit:
-                    runs.append({"omit": omit, "mode": "sync" if k % 2 else "async"})
+                if omit and (rich or k % 2):
+                    runs.append({"omit": omit, "mode": "sync" if k % 4 == 1 else "async"})
                 yield case("graph", prof, P, steps, runs, map={"pos": pos, "clone": clone})
 
 
-def _size(case, kinds=("inputs", "outputs")):
-    return sum(len(s[1]) if s[0] in ("inputs", "outputs") else 1 for s in case["steps"] if s[0] in kinds or s[0] not in ("inputs", "outputs")) \
-        + len(case.get("ctor") or [])
+def _size(case, kinds=("inputs", "outputs", "name", "map")):
+    return sum(len(s[1]) if s[0] in ("inputs", "outputs") else 1 for s in case["steps"] if s[0] in kinds) \
+        + (len(case.get("ctor") or []) if "inputs" in kinds else 0)
 
 
 def _keep(lst, item, n=2):
